@@ -74,6 +74,10 @@ fn alphabet(dist: bool) -> Vec<Item> {
     v.push(Item { name: "truncated_term", frames: vec![(frame(&[112, 131, 104, 3, 97], 4), Exp::OneErr)] });
     v.push(Item { name: "wrong_marker", frames: vec![(frame(&[200, 1, 2], 4), Exp::OneErr)] });
     v.push(Item { name: "version_only", frames: vec![(frame(&[131], 4), Exp::OneErr)] });
+    // shortest frames: the marker alone, marker and version alone, a single unknown byte (single-frame cases)
+    v.push(Item { name: "kjunk_marker_only", frames: vec![(frame(&[112], 4), Exp::OneErr)] });
+    v.push(Item { name: "kjunk_marker_version_only", frames: vec![(frame(&[112, 131], 4), Exp::OneErr)] });
+    v.push(Item { name: "kjunk_one_unknown_byte", frames: vec![(frame(&[7], 4), Exp::OneErr)] });
     v.push(Item { name: "control_not_a_tuple", frames: vec![(frame(&[112, 131, 97, 5], 4), Exp::OneErr)] });
     if dist {
         let c1 = RefVal::Tuple(vec![RefVal::int(6), RefVal::Pid { node: "peer@127.0.0.1".into(), id: 3, serial: 0, creation: 9 }, RefVal::atom(""), RefVal::atom("srv")]);
@@ -127,6 +131,20 @@ fn alphabet(dist: bool) -> Vec<Item> {
             let mut asis: Vec<Vec<u8>> = vec![];
             { let mut h = vec![131u8, 69]; h.extend_from_slice(&22u64.to_be_bytes()); h.extend_from_slice(&3u64.to_be_bytes()); h.push(0); h.extend_from_slice(chunks[2]); asis.push(h); }
             for id in [2u64, 1] { let mut c = vec![131u8, 70]; c.extend_from_slice(&22u64.to_be_bytes()); c.extend_from_slice(&id.to_be_bytes()); c.extend_from_slice(chunks[id as usize - 1]); asis.push(c); }
+            // the same layout with a tick or a rejected fragment frame between the fragments, and a second message
+            // that reuses the sequence id with a continuation overtaking its header
+            {
+                let part = |i: usize| (frame(&asis[i], 4), Exp::FragPart);
+                let last = |i: usize, m: &DistMsg| (frame(&asis[i], 4), Exp::FragAsIsLast(m.clone()));
+                v.push(Item { name: "kfragperm_asis_tick_between", frames: vec![part(0), (vec![0, 0, 0, 0], Exp::Nothing), part(1), (vec![0, 0, 0, 0], Exp::Nothing), last(2, &m_plain)] });
+                let mut short_frag = vec![131u8, 69]; short_frag.extend_from_slice(&[0, 0, 0]);
+                let mut short_cont = vec![131u8, 70]; short_cont.extend_from_slice(&[0, 0, 0, 0, 0, 0, 0, 22, 0]);
+                v.push(Item { name: "kfragperm_asis_junk_header_between", frames: vec![part(0), (frame(&short_frag, 4), Exp::OneErr), part(1), last(2, &m_plain)] });
+                v.push(Item { name: "kfragperm_asis_junk_continuation_between", frames: vec![part(0), part(1), (frame(&short_cont, 4), Exp::OneErr), last(2, &m_plain)] });
+                v.push(Item { name: "kfragperm_asis_reuse_header_first", frames: vec![part(0), part(1), last(2, &m_plain), part(0), part(1), last(2, &m_plain)] });
+                v.push(Item { name: "kfragperm_asis_reuse_continuation_first", frames: vec![part(0), part(1), last(2, &m_plain), part(1), part(0), last(2, &m_plain)] });
+                v.push(Item { name: "kfragperm_asis_reuse_header_last", frames: vec![part(0), part(1), last(2, &m_plain), part(2), part(1), last(0, &m_plain)] });
+            }
             for (pname, aname, order) in perms {
                 let pf: Vec<(Vec<u8>, Exp)> = order.iter().enumerate().map(|(k, &i)| (frame(&proto[i], 4), if k == 2 { Exp::FragLast(dm.clone()) } else { Exp::FragPart })).collect();
                 v.push(Item { name: pname, frames: pf });
@@ -377,7 +395,7 @@ fn run_filtered(rep: &Report, only: Option<&str>) -> Value {
                 let others: Vec<(&String, &bool)> = pr.iter().filter(|(k, _)| k.starts_with(&format!("kfragperm_{}_", layout))).collect();
                 match wire {
                     Some(true) => {
-                        for (k, ok) in others { if !*ok { rep.violation("a fragmented message that is delivered when its fragments arrive in wire order is lost in another arrival order", json!({"layout": layout, "case": k, "configuration": name})); } }
+                        for (k, ok) in others { if !*ok { rep.violation("a fragmented message that is delivered when its fragments arrive in wire order is lost under another arrival order, an interposed tick or rejected frame, or a reused sequence id", json!({"layout": layout, "case": k, "configuration": name})); } }
                     }
                     Some(false) if layout == "protocol" => {
                         // the protocol's layout is not delivered even in wire order: the recorded finding, once per order
